@@ -275,15 +275,19 @@ def encode(it, text, enc):
     if is_concrete_str(enc):
         name = concrete_str(enc)
         try:
-            canon = codecs.lookup(name).name
+            info = codecs.lookup(name)
+            canon = info.name
         except LookupError:
             it.raise_(LookupError)
+        if not getattr(info, '_is_text_encoding', True):
+            it.raise_(LookupError)
+        ctx.assume(M.F_TextCodec(enc.e))
+        ctx.assume(M.F_CodecKnown(enc.e))
         if canon == 'ascii':
             if not ctx.branch(z3.InRe(text.e, M.RE_ASCII)):
                 it.raise_(UnicodeEncodeError)
             return VStr(text.e, True)
-    known = M.F_CodecKnown(enc.e)
-    if not ctx.branch(known):
+    if not ctx.branch(M.text_codec(ctx, enc.e)):
         it.raise_(LookupError)
     if not ctx.branch(M.F_Encodable(enc.e, text.e)):
         it.raise_(UnicodeEncodeError)
@@ -296,14 +300,19 @@ def decode(it, data, enc):
     if is_concrete_str(enc):
         name = concrete_str(enc)
         try:
-            canon = codecs.lookup(name).name
+            info = codecs.lookup(name)
+            canon = info.name
         except LookupError:
             it.raise_(LookupError)
+        if not getattr(info, '_is_text_encoding', True):
+            it.raise_(LookupError)
+        ctx.assume(M.F_TextCodec(enc.e))
+        ctx.assume(M.F_CodecKnown(enc.e))
         if canon == 'ascii':
             if not ctx.branch(z3.InRe(data.e, M.RE_ASCII)):
                 it.raise_(UnicodeDecodeError)
             return VStr(data.e, False)
-    if not ctx.branch(M.F_CodecKnown(enc.e)):
+    if not ctx.branch(M.text_codec(ctx, enc.e)):
         it.raise_(LookupError)
     if not ctx.branch(M.F_Decodable(enc.e, data.e)):
         it.raise_(UnicodeDecodeError)
